@@ -75,10 +75,10 @@ def model(L, n, b_ix, e_ix):
     return out
 
 
-def make_cube(rng, L, dim, with_nan, dtype="float64"):
+def make_cube(rng, L, dim, with_nan, dtype="float64", freq="10D"):
     import xarray as xr
 
-    time = pd.date_range("2000-01-01", periods=L, freq="10D")
+    time = pd.date_range("1999-12-30" if freq in ("6h", "D") else "2000-01-01", periods=L, freq=freq)
     data = rng.integers(-50, 50, (L, 2, 3)).astype(np.float64)
     if with_nan and np.dtype(dtype).kind == "f":
         data[rng.random(data.shape) < 0.25] = np.nan
@@ -213,7 +213,9 @@ def shard_offaxis(spec, R):
         dim = ["band", "time", "time", "lag", "time", "depth"][H.pick(it, 1, 6)]
         dtype = ["float64", "float32", "float16", "int16", "int64"][H.pick(it, 4, 5)]
         R.count(f"cube_dtype_{dtype}")
-        da, data, axis = make_cube(rng, L, dim, bool(H.pick(it, 2, 3) == 0), dtype)
+        freq = ["10D", "6h", "D", "MS", "10D"][H.pick(it, 5, 5)]  # sub-daily, daily and monthly axes: a date or month string still names one step
+        R.count(f"time_axis_{freq}" if dim == "time" else "non_time_axis")
+        da, data, axis = make_cube(rng, L, dim, bool(H.pick(it, 2, 3) == 0), dtype, freq=freq)
         fname = ["sum", "mean", "full"][H.pick(it, 3, 3)]
         n = int(rng.integers(1, L + 2))
         method = [None, "nearest", "ffill", "bfill"][int(rng.integers(0, 4))]
@@ -239,10 +241,25 @@ def shard_offaxis(spec, R):
         kb = kinds[int(rng.integers(0, len(kinds)))]
         ke = kinds[int(rng.integers(0, len(kinds)))]
         begin, end = pick(kb), pick(ke)
-        if dim == "time" and begin is not None and kb != "garbage" and rng.random() < 0.5:
-            begin = str(begin)
-        if dim == "time" and end is not None and ke != "garbage" and rng.random() < 0.5:
-            end = str(end)
+        def spell(ts):
+            """A time stamp as text, as coarse as it can be while still parsing to the same instant."""
+            ts = pd.Timestamp(ts)
+            full = str(ts)
+            opts = [full, ts.isoformat()]
+            if ts == ts.normalize():
+                opts += [full[:10], full[:10]]
+                if ts.day == 1:
+                    opts += [full[:7], full[:7]]
+                    if ts.month == 1:
+                        opts.append(full[:4])
+            return opts[int(rng.integers(0, len(opts)))]
+
+        if dim == "time" and begin is not None and kb != "garbage" and rng.random() < 0.6:
+            begin = spell(begin)
+            R.count(f"label_text_len_{len(begin)}")
+        if dim == "time" and end is not None and ke != "garbage" and rng.random() < 0.6:
+            end = spell(end)
+            R.count(f"label_text_len_{len(end)}")
         b_ix = None if begin is None else locate(axis, begin, method)
         e_ix = None if end is None else locate(axis, end, method)
         must_raise = (begin is not None and b_ix is None) or (end is not None and e_ix is None)
